@@ -26,6 +26,9 @@ type Env struct {
 	cells map[string]*Val
 	// frame of the enclosing function while evaluating inside old(): only for expressions whose TYPE is all that matters
 	typeFr *Frame
+	// outer: clauses of a "loop N of F" block — names that are not locals of the inlined frame env.fr resolve in the
+	// enclosing frames of the inline chain (innermost first)
+	outer bool
 }
 
 func (env *Env) with(st *State) *Env {
@@ -515,9 +518,20 @@ func (env *Env) goObject(o types.Object) (*Val, error) {
 	return nil, fmt.Errorf("cannot use %s in a specification", o.Name())
 }
 
-// lookupSSA resolves a source-level variable name inside env.fr.
+// lookupSSA resolves a source-level variable name inside env.fr (and, for env.outer, the frames it is inlined into).
 func (env *Env) lookupSSA(name string) *Val {
-	fr := env.fr
+	if v := env.lookupSSAIn(env.fr, name); v != nil || !env.outer {
+		return v
+	}
+	for f := env.fr.parent; f != nil; f = f.parent {
+		if v := env.lookupSSAIn(f, name); v != nil {
+			return v
+		}
+	}
+	return nil
+}
+
+func (env *Env) lookupSSAIn(fr *Frame, name string) *Val {
 	e := env.e
 	for _, p := range fr.fn.Params {
 		if p.Name() == name {
